@@ -53,6 +53,18 @@ structure Consistent (st : State) : Prop where
   alg_of_key       : joseAlg st.key.pub = some st.jwk.alg
   all_sig          : ∀ j ∈ st.pubKeys, j.use = "sig" ∧ joseAlg j.pub = some j.alg
 
+/-- what a reader of the endpoint sees of one JWK apart from the algorithm: id, public key, certificates -/
+def Jwk.face (j : Jwk) : String × PubKey × List Cert := (j.kid, j.pub, j.certs)
+
+/-- every listing of the key store file is published: one JWK per key block, in file order, under the block's id,
+with the block's public half and certificate chain — also when several blocks hold the very same key -/
+def EveryListingPublished (raw : List RawEntry) (st : State) : Prop :=
+  st.pubKeys.map Jwk.face = raw.map (fun e => (kidOf e, e.key.pub, e.chain))
+
+/-- the file lists the key of the block `e` in another block as well, under another id -/
+def SharedKey (raw : List RawEntry) (e : RawEntry) : Prop :=
+  ∃ e' ∈ raw, e'.key.pub = e.key.pub ∧ kidOf e' ≠ kidOf e
+
 def privateMembers : List String := ["d", "p", "q", "dp", "dq", "qi", "oth", "k"]
 
 /-- forget the private part of every key of a key store file -/
